@@ -461,7 +461,34 @@ def call_method(interp, recv, name, args, kwargs):
         if isinstance(old, str) and isinstance(new, str):
             if hasattr(z3, 'ReplaceAll'):
                 return wrap(z3.ReplaceAll(t, _s(old), _s(new)))
+            if len(old) == 1 and len(new) == 1 and old != new:
+                # all occurrences of one character by another: abstracted by what is true of the result
+                # (same length, the old character is gone, unchanged when it did not occur, and -- position
+                # by position -- a character other than the old one stays)
+                r = _fresh(interp, 'replaced')
+                o, nw = z3.StringVal(old), z3.StringVal(new)
+                st.assume(z3.Length(r) == z3.Length(t))
+                st.assume(z3.Not(z3.Contains(r, o)))
+                st.assume(z3.Implies(z3.Not(z3.Contains(t, o)), r == t))
+                st.assume(z3.Implies(z3.Length(t) > 0,
+                                     z3.If(z3.PrefixOf(o, t), z3.PrefixOf(nw, r),
+                                           z3.SubString(r, 0, 1) == z3.SubString(t, 0, 1))))
+                return SStr(r)
         raise Unsupported('str.replace (all occurrences) with symbolic pattern')
+    if name == 'zfill':
+        w = args[0]
+        if not isinstance(w, int) or isinstance(w, bool):
+            raise Unsupported('str.zfill with symbolic width')
+        # pad with zeros up to width w, after a leading sign: a case split on the (short) length, as a term
+        L = z3.Length(t)
+        signed = z3.Or(z3.PrefixOf(z3.StringVal('-'), t), z3.PrefixOf(z3.StringVal('+'), t))
+        res = t
+        for k in range(w - 1, -1, -1):
+            pad = z3.StringVal('0' * (w - k))
+            padded = z3.If(signed, z3.Concat(z3.SubString(t, 0, 1), pad, z3.SubString(t, 1, L - 1)),
+                           z3.Concat(pad, t))
+            res = z3.If(L == k, padded, res)
+        return wrap(res)
     if name == 'encode':
         raise Unsupported('str.encode on symbolic string')
     if name == '__len__':
